@@ -1,33 +1,57 @@
 /- C45 driver:
-   `C45 format <colorOn> [levelname,levelno,asctime,module,lineno,[ok,msg]|[raised,repr],dictRepr,excInfo|~,excText]`
+   `C45 format|format0 <colorOn> [levelname,levelno,asctime,module,lineno,MSG,OUTCOME(dictRepr),excInfo|~,[s,text]|[b,bytes]]`
+     MSG = [ok,msg] | [notstr] | [raised,excName,isExc,OUTCOME(repr e)]   OUTCOME = [ok,text] | [raised,excName,isExc]
+     (`format` = the fixed code, `format0` = the code before the fixes)
+   `C45 bytesrepr <bytes>` · `C45 safeunicode <bytes>`
    `C45 indented <text>` · `C45 isspace [cp,…]` · `C45 rstrip <text>` -/
 import TornadoModel.Base.Wire
 import TornadoModel.C45.Spec
 namespace TornadoModel.C45.Drv
 open TornadoModel TornadoModel.Wire TornadoModel.C45
 
+def decExc (n b : V) : Option Exc := do pure ⟨← n.cps?, ← b.bool?⟩
+
+def decOutcome (v : V) : Option Outcome := do
+  match ← v.list? with
+  | [.atom "ok", s] => pure (.ok (← s.cps?))
+  | [.atom "raised", n, b] => pure (.raised (← decExc n b))
+  | _ => none
+
 def decMsg (v : V) : Option Msg := do
   match ← v.list? with
   | [.atom "ok", s] => pure (.ok (← s.cps?))
-  | [.atom "raised", e] => pure (.raised (← e.cps?))
+  | [.atom "notstr"] => pure .notStr
+  | [.atom "raised", n, b, o] => pure (.raised (← decExc n b) (← decOutcome o))
+  | _ => none
+
+def decExcText (v : V) : Option ExcText := do
+  match ← v.list? with
+  | [.atom "s", s] => pure (.str (← s.cps?))
+  | [.atom "b", b] => pure (.bytes (← b.byteNats?))
   | _ => none
 
 def decRecord (v : V) : Option Record := do
   match ← v.list? with
   | [ln, lno, asc, md, line, msg, dr, ei, et] =>
     pure { levelname := ← ln.cps?, levelno := ← lno.int?, asctime := ← asc.cps?, module := ← md.cps?,
-           lineno := ← line.int?, msg := ← decMsg msg, dictRepr := ← dr.cps?,
+           lineno := ← line.int?, msg := ← decMsg msg, dictRepr := ← decOutcome dr,
            excInfo := ← (if ei.isNone then pure none else do pure (some (← ei.cps?))),
-           excText := ← et.cps? }
+           excText := ← decExcText et }
   | _ => none
+
+def outV : Except Exc Str → String
+  | .ok s => ok [V.ofCps s]
+  | .error e => ok [.atom "Uncaught", V.ofCps e.name]
 
 def go (toks : List String) : Option String := do
   let args ← parseArgs toks.tail
   match toks.head?, args with
   | some "format", [c, r] =>
-    match format (← c.bool?) (← decRecord r) with
-    | .ok s => pure (ok [V.ofCps s])
-    | .error e => pure (ok [.atom "Uncaught", V.ofCps e])
+    pure (outV (format (← c.bool?) (← decRecord r)))
+  | some "format0", [c, r] =>
+    pure (outV (formatUnfixed (← c.bool?) (← decRecord r)))
+  | some "bytesrepr", [b] => pure (ok [V.ofCps (bytesRepr (← b.byteNats?))])
+  | some "safeunicode", [b] => pure (ok [V.ofCps (safeUnicodeBytes (← b.byteNats?))])
   | some "indented", [s] =>
     let t ← s.cps?
     pure (ok [V.ofBool (Spec.indented t), V.ofBool (Spec.linesIndented t)])
